@@ -16,7 +16,7 @@ THEOREMS = ["C05_flat_vs_structured", "C05_fuel_bound", "C05_fuel_mono", "C05_al
             "C05_count_zero_runs_once", "C05_halted_fixed", "C05_exec_app", "C05_flatten_app", "C05_repeat",
             "C05_repeat_text", "C05_break", "C05_break_text",
             "C05_parse_sound", "C05_parse_complete", "C05_balanced_iff", "C05_run_parsed", "C05_run_parsed_pos", "C05_exec_lexed",
-            "C05_repeat_tokens", "C05_break_tokens", "C05_lone_end", "C05_lone_break", "C05_unclosed_begin"]
+            "C05_repeat_tokens", "C05_break_tokens", "C05_lone_end", "C05_lone_break", "C05_unclosed_begin", "C05_exec_fuel_mono"]
 DRIVERS = ["core"]
 RULE = ("programs = pre [n body] post with n in 1..6 or omitted (=2), bodies of 1..4 items from the core-language generator "
         "(notes with flags, rests, n-notes, l/o/v/q/t and relative state commands, chords, tuplets, Sub blocks, comments, all "
